@@ -867,7 +867,8 @@ impl Mp4TrackWriter {
     }
 
     fn write_chunk<W: Write + Seek>(&mut self, writer: &mut W) -> Result<()> {
-        if self.chunk_buffer.is_empty() {
+        // Nothing pending. (Samples may be empty, so the buffer length does not tell.)
+        if self.chunk_samples == 0 {
             return Ok(());
         }
         let chunk_offset = writer.stream_position()?;
